@@ -30,7 +30,7 @@ def run_one(m):
         r = subprocess.run([os.path.join(VERIF, "check"), m["prop"], "--tier", "quick"], capture_output=True, text=True, env=env,
                            timeout=3000)
         viol = [l for l in r.stdout.splitlines() if l.startswith("VIOLATION")]
-        kinds = sorted({"proved" if "/src." in l or "example" in l else "bounded" for l in viol})
+        kinds = sorted({"bounded" if "_bounded_" in l else "proved" for l in viol})
         ok = (r.returncode == 1 and viol) if m["expect"] == 1 else (r.returncode == 0 and not viol)
         return dict(id=m["id"], prop=m["prop"], expect=m["expect"], exit=r.returncode, violations=len(viol), caught_by=kinds,
                     first=(viol[0][:220] if viol else ""), ok=bool(ok), note=m.get("note", ""))
